@@ -2,5 +2,5 @@ import CRProofs.XsdEnum
 namespace CR.C03
 set_option maxRecDepth 100000 in
 set_option maxHeartbeats 1000000 in
-theorem signs_ger_1 : ((gerSigns.take 120).all okNV) = true := by decide
+theorem signs_ger_6 : (((gerSigns.drop 150).take 30).all okNV) = true := by decide
 end CR.C03
